@@ -124,3 +124,48 @@ def ctx_list(case) -> List[Ctx]:
 def short_teal(teal: str, n=40) -> str:
     lines = teal.split("\n")
     return "\n".join(lines[:n] + (["... (%d more lines)" % (len(lines) - n)] if len(lines) > n else []))
+
+
+# --------------------------------------------------------------------------- multi-configuration runs (C02 / C03)
+
+
+def cfg_key(cfg: dict) -> str:
+    return "v%d/ss=%s/fp=%s%s" % (cfg["version"], cfg.get("scratch_slots"), cfg.get("frame_pointers"), "/asm" if cfg.get("assemble") else "")
+
+
+def boundary_violations(trace, sigs) -> List[str]:
+    """Call-boundary invariant on an interpreter trace: at every retsub the data stack equals the snapshot taken at the
+    matching callsub with the callee's `nargs` arguments removed and exactly `nrets` values appended.
+    sigs: label -> (nargs, nrets)."""
+    out = []
+    for ev in trace:
+        if ev[0] != "retsub":
+            continue
+        _k, label, snap, after, _clear, _a, _r = ev
+        sg = sigs.get(label)
+        if sg is None or snap is None:
+            continue
+        nargs, nrets = sg
+        if len(snap) < nargs:
+            out.append("%s: called with %d values on the stack, takes %d argument(s)" % (label, len(snap), nargs))
+            continue
+        keep = snap[: len(snap) - nargs]
+        if len(after) != len(keep) + nrets:
+            out.append("%s: stack height after return is %d, expected %d (caller held %d, %d result(s))" % (label, len(after), len(keep) + nrets, len(keep), nrets))
+        elif tuple(after[: len(keep)]) != tuple(keep):
+            out.append("%s: values the caller held below the call were changed: before=%r after=%r" % (label, _short(keep), _short(after[: len(keep)])))
+    return out
+
+
+def _short(vals):
+    return [v.hex() if isinstance(v, (bytes, bytearray)) else v for v in list(vals)[-6:]]
+
+
+def label_sigs(recipe: dict, prog) -> Dict[str, Tuple[int, int]]:
+    out = {}
+    byname = {r["name"]: (len(r["params"]), 0 if r["ret"] == "N" else 1) for r in recipe.get("routines", [])}
+    for lab in prog.labels:
+        base = lab.rsplit("_", 1)[0]
+        if base in byname and lab[len(base) + 1 :].isdigit():
+            out[lab] = byname[base]
+    return out
